@@ -30,7 +30,7 @@ def check(repo, tier="quick"):
         "code reachable from parse_stream writes module-level, class-level, function-attribute or default-argument "
         "state, nor stores a shared module-level object into state; every sequence boundary is byte aligned."
     )
-    res.rule("C10.i", "bug patterns with zero expected instances in this property's modules: swapped same-named arguments, lower-bound guard followed by a decrement of the guarded value, presence of a dictionary entry decided by truthiness")
+    res.rule("C10.i", "bug patterns with zero expected instances in this property's modules: swapped same-named arguments, lower-bound guard followed by a decrement of the guarded value, presence of a dictionary entry decided by truthiness; no state kept outside the declared State entries (module-level containers, caches, function attributes, the state object's __dict__)")
     res.rule("C10.a", "reset_state(state) dominates every state access and every call in parse_sequence (validator and serdes flavours)")
     res.rule("C10.b", "reset_state deletes every key not in retained_state_fields and does nothing else")
     res.rule("C10.c", "retained_state_fields is a subset of {keys stored by decoder/io.py} + {output callback}, keeps the callback, and keeps every I/O key read before it is written")
@@ -51,7 +51,10 @@ def check(repo, tier="quick"):
     from .. import lints as _lints
 
     _lints.rule(repo, res, "C10.i", ['decoder.stream', 'decoder.io', 'pseudocode.state', 'decoder.sequence_header', 'decoder.picture_syntax', 'decoder.fragment_syntax', 'decoder.transform_data_syntax'])
-    res.floor("C10.i", 8)
+    from .. import globals_state as _gs
+
+    _gs.rule(repo, res, "C10.i", ['decoder.stream', 'decoder.io', 'decoder.assertions', 'decoder.sequence_header', 'decoder.picture_syntax', 'decoder.fragment_syntax', 'decoder.transform_data_syntax', 'pseudocode.state', 'pseudocode.slice_sizes', 'pseudocode.video_parameters', 'pseudocode.picture_decoding', 'pseudocode.arrays', 'pseudocode.vc2_math', 'pseudocode.parse_code_functions', 'symbol_re', 'level_constraints', 'constraint_table'], what="the verdict on one sequence (reset_state clears only the declared entries of the state dictionary: anything parked elsewhere -- a module-level table, a function attribute, the state object's own __dict__ -- is carried into the next sequence)")
+    res.floor("C10.i", 20)
     res.floor("C10.g", 1)
     res.floor("C10.h", 2)
     res.floor("C10.a", 2)
